@@ -50,11 +50,15 @@ STRINGS = STRINGS_CORE + [
     # every control character and every character Python (but not the grammars) counts as white space,
     # inside a string and at its edges
     "a" + chr(c) + "b" for c in list(range(0, 32)) + list(range(0x7f, 0xa2)) + [0xad, 0xff, 0x100, 0x1680, 0x2028, 0x3000] if chr(c) not in "\t\n\f\x00\x01\x85\xa0"
-] + ["\x1erecord", "record\x1c", "\x00a", "a\x00", "\x7fa", "\x1f", "\x0b"]
+] + ["\x1erecord", "record\x1c", "\x00a", "a\x00", "\x7fa", "\x1f", "\x0b"] + [
+    # very long lexemes: unquoted words, quoted text without a blank
+    "x" * 1024, "x" * 1025, "w" * 3000, "Ab_" * 700, "q r " + "y" * 2000,
+]
 
 NUMBERS = [0, 1, -1, 7, 255, -255, 2 ** 63, -(2 ** 64), 0.0, -0.0, 1.5, -2.25, 1e-7, 1e16, 1e300, 0.1,
            123456.789, 1e22, 5e-324, True, False, None,
-           -1e16, -1.5e+16, -1e300, -1e-7, -5e-324, -123456.789e10, 1e15, -1e15, 9007199254740993, 0.30000000000000004]
+           -1e16, -1.5e+16, -1e300, -1e-7, -5e-324, -123456.789e10, 1e15, -1e15, 9007199254740993, 0.30000000000000004,
+           10 ** 1100, -(10 ** 2000) - 7]
 NONFINITE = [float("inf"), float("-inf"), float("nan")]      # only put to the default loader (C02 says "all modules")
 
 DATES = [dt.date(1, 1, 1), dt.date(999, 12, 31), dt.date(1000, 1, 1), dt.date(2001, 2, 28), dt.date(9999, 12, 31)]
